@@ -212,9 +212,13 @@ def check_argparse(cir, opts, ns, discs, per):
         s = _arg_type(typ)
         want_types = {"int": (int,), "float": (float,), "bool": (bool,), "str": (None, str)}[s]
         if "Literal" in names:
-            lits = [x.value for x in ast.walk(ast.parse(typ, mode="eval")) if isinstance(x, ast.Constant)]
-            if tuple(a.choices or ()) != tuple(lits):
+            lits = _literal_members(typ)
+            if tuple(a.choices or ()) != tuple(lits) or [type(x) for x in (a.choices or ())] != [type(x) for x in lits]:
                 discs.append(Disc("argparse:choices", n, "expected %r got %r" % (tuple(lits), a.choices), pt))
+            kinds_ = {type(x) for x in lits}
+            if len(kinds_) == 1 and kinds_ <= {int, float} and a.type not in kinds_:
+                # numeric choices are only reachable from the command line when the option converts its argument
+                discs.append(Disc("argparse:type", n, "choices %r need type=%s, got %r" % (tuple(lits), next(iter(kinds_)).__name__, a.type), pt))
         else:
             if typ is not None and a.type not in want_types:
                 discs.append(Disc("argparse:type", n, "expected %s got %r" % (s, a.type), pt))
@@ -253,6 +257,16 @@ def _docstring_only_diff(a_src_node, b_src):
                 node.body[0].value.value = ws(node.body[0].value.value)
         return ast.dump(tree)
     return strip(ast.parse(a_src_node)) == strip(ast.parse(b_src))
+
+
+def _literal_members(typ):
+    """Members of the (first) Literal[...] inside a type string, in source order, signs included."""
+    for node in ast.walk(ast.parse(typ, mode="eval")):
+        if isinstance(node, ast.Subscript) and getattr(node.value, "id", None) == "Literal":
+            sl = node.slice
+            elts = sl.elts if isinstance(sl, ast.Tuple) else [sl]
+            return [ast.literal_eval(e) for e in elts]
+    return []
 
 
 def run_case(case):
